@@ -118,6 +118,10 @@ package fans
 
 //@ func (*HwMonFan).Supports
 //@   params (fan, feature)
+//@   props C17
+//@   ensures[C17.supports.mode] feature == FeatureControlMode ==> result == (fan.Config.HwMon.PwmEnablePath in statOK)
+//@   ensures[C17.supports.rpm]  feature == FeatureRpmSensor ==> result == (fan.Config.HwMon.RpmInputPath in statOK)
+//@   ensures[C17.supports.pwm]  feature == FeaturePwmSensor ==> result == !lastReadFailed
 //@   ghostret supportsResult[feature] := result
 //@   ensures supportsResult == old(supportsResult)[feature := result]
 //@   requires hwWF(fan)
